@@ -1,7 +1,7 @@
 (* C11 - The command-byte table is total, exact and invertible.
    Statements only; every proof is `exact <lemma>` from Proofs/.  The byte domain 0 <= b < 256 is
    complete because the Rust argument is a u8. *)
-From Ctap Require Import Base Schema Procs Inst ProcTables Finite C11P ObOpTables FnShapes Shapes ObShapeRequest Deps ObDeps.
+From Ctap Require Import Base Schema Procs Inst ProcTables Finite C11P ObOpTables FnShapes Shapes ObShapeRequest Deps ObDeps ObShapeTablesOp.
 Local Open Scope string_scope.
 Local Open Scope Z_scope.
 
@@ -128,8 +128,12 @@ Theorem c11_modelled_functions_unchanged_request : shapes_hold fn_shapes shapes_
 Proof. exact generated_shapes_request. Qed.
 
 (* the third-party crates the model represents by hand are pinned at the versions it was written against *)
-Theorem c11_modelled_dependencies_pinned : deps_hold lock_versions cargo_deps = true.
+Theorem c11_modelled_dependencies_pinned : deps_hold repo_lock_present lock_versions harness_lock_versions cargo_deps = true.
 Proof. exact generated_deps. Qed.
+
+(* lookup tables, accessors, builders and further generators this property rests on *)
+Theorem c11_modelled_functions_unchanged_tables_op : shapes_hold fn_shapes shapes_tables_op = true.
+Proof. exact generated_shapes_tables_op. Qed.
 
 Eval vm_compute in "ASSUMPTIONS c11_recognised_exact". Print Assumptions c11_recognised_exact.
 Eval vm_compute in "ASSUMPTIONS c11_vendor_try_from". Print Assumptions c11_vendor_try_from.
@@ -148,3 +152,4 @@ Eval vm_compute in "ASSUMPTIONS c11_generated_conforms". Print Assumptions c11_g
 Eval vm_compute in "ASSUMPTIONS c11_generated_route". Print Assumptions c11_generated_route.
 Eval vm_compute in "ASSUMPTIONS c11_modelled_functions_unchanged_request". Print Assumptions c11_modelled_functions_unchanged_request.
 Eval vm_compute in "ASSUMPTIONS c11_modelled_dependencies_pinned". Print Assumptions c11_modelled_dependencies_pinned.
+Eval vm_compute in "ASSUMPTIONS c11_modelled_functions_unchanged_tables_op". Print Assumptions c11_modelled_functions_unchanged_tables_op.
